@@ -207,7 +207,10 @@ public:
    /// @since  1.34.1, 14.01.2020
    bool hasIntersection( const ContainerAdapter& other) const
    {
-      return common::hasIntersection( mDestCont, other.mDestCont);
+      // the container is not sorted: cannot use the merge-like algorithm of
+      // common::hasIntersection()
+      return std::find_first_of( mDestCont.begin(), mDestCont.end(),
+         other.mDestCont.begin(), other.mDestCont.end()) != mDestCont.end();
    } // ContainerAdapter< std::deque< T>>::hasIntersection
 
    /// Returns a string with the values from the container.
@@ -323,7 +326,10 @@ public:
    /// @since  1.34.1, 14.01.2020
    bool hasIntersection( const ContainerAdapter& other) const
    {
-      return common::hasIntersection( mDestCont, other.mDestCont);
+      // the container is not sorted: cannot use the merge-like algorithm of
+      // common::hasIntersection()
+      return std::find_first_of( mDestCont.begin(), mDestCont.end(),
+         other.mDestCont.begin(), other.mDestCont.end()) != mDestCont.end();
    } // ContainerAdapter< std::forward_list< T>>::hasIntersection
 
    /// Returns a string with the values from the container.
@@ -447,7 +453,10 @@ public:
    /// @since  1.34.1, 14.01.2020
    bool hasIntersection( const ContainerAdapter& other) const
    {
-      return common::hasIntersection( mDestCont, other.mDestCont);
+      // the container is not sorted: cannot use the merge-like algorithm of
+      // common::hasIntersection()
+      return std::find_first_of( mDestCont.begin(), mDestCont.end(),
+         other.mDestCont.begin(), other.mDestCont.end()) != mDestCont.end();
    } // ContainerAdapter< std::list< T>>::hasIntersection
 
    /// Returns a string with the values from the container.
@@ -1176,7 +1185,10 @@ public:
    /// @since  1.34.1, 14.01.2020
    bool hasIntersection( const ContainerAdapter& other) const
    {
-      return common::hasIntersection( mDestCont, other.mDestCont);
+      // the container is not sorted: cannot use the merge-like algorithm of
+      // common::hasIntersection()
+      return std::find_first_of( mDestCont.begin(), mDestCont.end(),
+         other.mDestCont.begin(), other.mDestCont.end()) != mDestCont.end();
    } // ContainerAdapter< std::unordered_multiset< T>>::hasIntersection
 
    /// Returns a string with the values from the container.
@@ -1295,7 +1307,10 @@ public:
    /// @since  1.34.1, 14.01.2020
    bool hasIntersection( const ContainerAdapter& other) const
    {
-      return common::hasIntersection( mDestCont, other.mDestCont);
+      // the container is not sorted: cannot use the merge-like algorithm of
+      // common::hasIntersection()
+      return std::find_first_of( mDestCont.begin(), mDestCont.end(),
+         other.mDestCont.begin(), other.mDestCont.end()) != mDestCont.end();
    } // ContainerAdapter< std::unordered_set< T>>::hasIntersection
 
    /// Returns a string with the values from the container.
@@ -1425,7 +1440,10 @@ public:
    /// @since  1.34.1, 14.01.2020
    bool hasIntersection( const ContainerAdapter& other) const
    {
-      return common::hasIntersection( mDestCont, other.mDestCont);
+      // the container is not sorted: cannot use the merge-like algorithm of
+      // common::hasIntersection()
+      return std::find_first_of( mDestCont.begin(), mDestCont.end(),
+         other.mDestCont.begin(), other.mDestCont.end()) != mDestCont.end();
    } // ContainerAdapter< std::vector< T>>::hasIntersection
 
    /// Returns a string with the values from the container.
